@@ -168,6 +168,39 @@ pub fn random_tokens(rng: &mut Rng, n: usize) -> Vec<u8> {
 }
 
 /// scripts for fork coins (C06); about `n` scripts
+/// secp256k1 points G, 2G, 3G (well-known coordinates) in a random encoding: 02/03 compressed, 04
+/// uncompressed, 06/07 hybrid. If a constant were mistyped the script would simply be a P2PK with an
+/// invalid key — the reference address does not depend on validity.
+pub fn real_pubkey(rng: &mut Rng) -> Vec<u8> {
+    const PTS: [(&str, &str); 3] = [
+        ("79be667ef9dcbbac55a06295ce870b07029bfcdb2dce28d959f2815b16f81798", "483ada7726a3c4655da4fbfc0e1108a8fd17b448a68554199c47d08ffb10d4b8"),
+        ("c6047f9441ed7d6d3045406e95c07cd85c778e4b8cef3ca7abac09b95c709ee5", "1ae168fea63dc339a3c58419466ceaeef7f632653266d0e1236431a950cfe52a"),
+        ("f9308a019258c31049344f85f89d5229b531c845836f99b08601f113bce036f9", "388f7b0f632de8140fe337e62a37f3566500a99934c2231b6cb9fd7584b8e672"),
+    ];
+    let (x, y) = *rng.pick(&PTS);
+    let (x, y) = (unhex(x).unwrap(), unhex(y).unwrap());
+    let odd = y[31] & 1;
+    match rng.below(4) {
+        0 => {
+            let mut k = vec![2 + odd];
+            k.extend(x);
+            k
+        }
+        1 => {
+            let mut k = vec![4];
+            k.extend(x);
+            k.extend(y);
+            k
+        }
+        _ => {
+            let mut k = vec![6 + odd];
+            k.extend(x);
+            k.extend(y);
+            k
+        }
+    }
+}
+
 /// a copy of an earlier script of the batch with one payload byte changed (same length, same
 /// prefix or same suffix): exposes caches / memoisation keyed too coarsely
 fn near_duplicate(out: &[Vec<u8>], rng: &mut Rng) -> Option<Vec<u8>> {
@@ -219,9 +252,74 @@ fn retarget(out: &[Vec<u8>], rng: &mut Rng, btc: bool) -> Option<Vec<u8>> {
     None
 }
 
+/// an intact template instance with a few complete tokens in front of it and/or behind it
+/// (e.g. Namecoin name operations `OP_1 <name> OP_2DROP <P2PKH>`, `<data> OP_DROP <P2PKH>`)
+fn wrapped_template(rng: &mut Rng, inner: Vec<u8>) -> Vec<u8> {
+    let tok = |rng: &mut Rng| -> Vec<u8> {
+        match rng.below(6) {
+            0 => vec![*rng.pick(&[0x51u8, 0x52, 0x53, 0x5a, 0x60])],
+            1 => {
+                let n = rng.usize(1, 30);
+                push(&rng.bytes(n))
+            }
+            2 => vec![*rng.pick(&[0x6du8, 0x75, 0x6d, 0x75, 0x76, 0x87])], // OP_2DROP, OP_DROP, OP_DUP, OP_EQUAL
+            3 => vec![0x00],
+            4 => push(&rng.bytes(20)),
+            _ => vec![*rng.pick(&[0xacu8, 0xad, 0x69, 0x88])],
+        }
+    };
+    let mut v = Vec::new();
+    let (pre, post) = match rng.below(3) {
+        0 => (rng.usize(1, 5), 0),
+        1 => (0, rng.usize(1, 3)),
+        _ => (rng.usize(1, 4), rng.usize(1, 2)),
+    };
+    // the classic shapes first
+    if pre > 0 && rng.coin() {
+        match rng.below(3) {
+            0 => {
+                v.push(0x51);
+                let n = rng.usize(1, 40);
+                v.extend(push(&rng.bytes(n)));
+                v.push(0x6d);
+            }
+            1 => {
+                v.push(0x52);
+                for _ in 0..3 {
+                    let n = rng.usize(1, 30);
+                    v.extend(push(&rng.bytes(n)));
+                }
+                v.extend_from_slice(&[0x6d, 0x6d]);
+            }
+            _ => {
+                v.push(0x53);
+                for _ in 0..2 {
+                    let n = rng.usize(1, 30);
+                    v.extend(push(&rng.bytes(n)));
+                }
+                v.extend_from_slice(&[0x6d, 0x75]);
+            }
+        }
+    } else {
+        for _ in 0..pre {
+            v.extend(tok(rng));
+        }
+    }
+    v.extend(inner);
+    for _ in 0..post {
+        v.extend(tok(rng));
+    }
+    v
+}
+
 pub fn fork_scripts(rng: &mut Rng, n: usize) -> Vec<Vec<u8>> {
     let mut out: Vec<Vec<u8>> = Vec::with_capacity(n);
     while out.len() < n {
+        if rng.chance(1, 12) {
+            let inner = template(rng.below(5), 0, rng);
+            out.push(wrapped_template(rng, inner));
+            continue;
+        }
         if rng.chance(1, 16) {
             if let Some(v) = near_duplicate(&out, rng) {
                 out.push(v);
@@ -403,6 +501,17 @@ pub fn bitcoin_scripts(rng: &mut Rng, n: usize) -> Vec<Vec<u8>> {
                 out.push(v);
                 continue;
             }
+        }
+        if rng.chance(1, 14) {
+            let inner = canon(rng);
+            out.push(wrapped_template(rng, inner));
+            continue;
+        }
+        if rng.chance(1, 20) {
+            // P2PK whose key is a real curve point in compressed, uncompressed or hybrid (06/07) encoding:
+            // the address is HASH160 of the pushed bytes, whatever the encoding
+            out.push(p2pk(&real_pubkey(rng)));
+            continue;
         }
         match rng.below(16) {
             0..=3 => out.push(canon(rng)),
